@@ -18,6 +18,7 @@ from onl.sim import Environment
 from onl.packet import Packet
 from onl.netdev import Port
 from vlib.util import quiet
+from harness.fifo import phase_of
 
 INF = float('inf')
 
@@ -95,6 +96,10 @@ class PortRun:
 
         def put(p):
             rec = {'t': env.now, 'id': p.packet_id, 'size': p.size, 'held': run.held, 'n': run.nheld, 'depth': run.depth, 'adv': port.byte_size, 'p': p}
+            # packets waiting to start transmission by the harness's own account (as in harness/c09.py): what was accepted and not taken by the port
+            # process when this kernel step began, plus what was accepted earlier in this step - for puts made by a source activation (depth 0);
+            # a put from inside the next hop's put() happens in a step of the port process itself: there the boundary account stays ambiguous
+            rec['nwait'] = run.wait0 + run.acc_step if run.depth == 0 and run.in_src_step else None
             d0 = port.packets_dropped
             with quiet():
                 orig_put(p)
@@ -108,6 +113,7 @@ class PortRun:
             if not rec['refused']:
                 run.inside[id(p)] = rec
                 run.held += p.size; run.nheld += 1
+                run.acc_step += 1
                 run.acc.append((env.now, rec))
 
         class Down:
@@ -120,6 +126,7 @@ class PortRun:
                     run.bad.append((env.now, p.packet_id))
                     return
                 rec['out'] = self.k
+                run.in_src_step = False            # the port process is running in this kernel step
                 run.held -= rec['size']; run.nheld -= 1
                 run.last_dep_size = rec['size']
                 run.deps.append((env.now, rec))
@@ -141,6 +148,7 @@ class PortRun:
                         run.depth -= 1
 
         self.last_dep_size = 0
+        self.wait0, self.acc_step, self.in_src_step = 0, 0, True
         self.downs = [Down(k) for k in range(1 + sum(1 for r in c.get('reconf') or [] if r['attr'] == 'out'))]
         port.put, port.out = put, self.downs[0]
 
@@ -167,6 +175,9 @@ class PortRun:
         try:
             while env.peek() < INF and steps < max_steps:
                 steps += 1
+                holds = phase_of(port.action) in ('H', 'T')
+                self.wait0, self.acc_step = self.nheld - (1 if holds else 0), 0
+                self.in_src_step = True
                 with quiet():
                     env.step()
         except Exception as x:      # noqa
@@ -253,6 +264,11 @@ def o_rule(run):
         elif c['mode'] == 'bytes':
             bad = r['refused'] != (r['held'] + r['size'] > q)
             why = f'byte limit {lim}: {r["held"]} bytes held (waiting plus in transmission) + {r["size"]} {">" if r["held"] + r["size"] > q else "<="} {q}'
+        elif r.get('nwait') is not None:
+            run.stats['packet-limit admissions judged against the harness account of waiting packets'] += 1
+            bad = r['refused'] != (r['nwait'] >= q - 1)
+            why = (f'packet limit {lim}: {r["nwait"]} packets waiting to start transmission (accepted and not yet taken by the port process, by the harness\'s own account: '
+                   f'a packet accepted earlier in the same burst has not started)')
         else:
             bad = (r['n'] < q - 1) if r['refused'] else (r['n'] > q - 1)
             why = f'packet limit {lim}: {r["n"]} packets held (waiting or in transmission)'
